@@ -106,6 +106,13 @@ INFO = {
              "topk ties allowed, counts and must-members enforced, sort order checked on instant vectors).",
         note="Values as exact rationals (stddev via its square); tie-breaking left open.",
         ref="6/C11"),
+    "C12": dict(
+        text="TLC compares the implementation-shaped binary-operation iterators (left map + right walk, key-set merges, literal side) "
+             "with the declarative pointwise join for every bounded pair of vectors, operator, scalar and side, and the cases plus random "
+             "ones (differently grouped sides, nesting) are evaluated by Engine.Eval instant and per step; TLC validates every returned "
+             "series and value (x/0, x%0 = NaN; comparisons 1 where they hold).",
+        note="Exact rational arithmetic incl. math.Mod sign and integer powers; fractional exponents out of scope.",
+        ref="6/C12"),
 }
 
 NOT_YET = "no check registered yet in this revision (machinery under construction; see DESIGN.md section 6 for the planned model)"
